@@ -263,7 +263,8 @@ Inductive edit :=
 | EClearEdges | EClearFaces | EClearCells   (* DataContainer.clear() *)
 | EAddVertex (v : list Z) | EAddEdge (e : edge) | EAddFace (f : list Z) | EAddCell (c : list Z)
 | ESetFace (i : Z) (f : list Z) | ESetCell (i : Z) (c : list Z)   (* container[i mod len] = row *)
-| EPopFace | EPopCell.
+| EPopFace | EPopCell
+| EPeek.   (* reading public properties of the raw data (dimensionality, id ranges, sizes): changes nothing *)
 
 Fixpoint set_nth {A} (n : nat) (x : A) (l : list A) : list A :=
   match l, n with
@@ -308,6 +309,7 @@ Definition apply_edit (e : edit) (r : raw) : raw :=
       mkRaw (vertices r) (edges r) (eattrs r) (removelast (faces r)) (fc_elem r) (fc_adj r) (cells r) (cc_elem r) (cc_adj r) (cf_elem r) (cf_adj r)
   | EPopCell =>
       mkRaw (vertices r) (edges r) (eattrs r) (faces r) (fc_elem r) (fc_adj r) (removelast (cells r)) (cc_elem r) (cc_adj r) (cf_elem r) (cf_adj r)
+  | EPeek => r
   end.
 
 Definition apply_edits (es : list edit) (r : raw) : raw := fold_left (fun r e => apply_edit e r) es r.
@@ -315,3 +317,49 @@ Definition apply_edits (es : list edit) (r : raw) : raw := fold_left (fun r e =>
 (* RawMeshData(mesh), edits, build again *)
 Definition rebuild (c : cfg) (dim : option Z) (es : list edit) (k : Z) (r : raw) : res (Z * raw) :=
   instanciate c dim (apply_edits es (rewrap k r)).
+
+(* ---------------------------------------------------------------- the data left behind when prepare() raises
+   (only _generate_cell_faces can: a cell's face is missing).  Every earlier step has been applied; cell_faces is untouched
+   when the new ids / owners are committed at the end (cf_atomic, generated), else it keeps what was appended before the
+   missing face.  The caller may supply the faces and build the SAME RawMeshData again. *)
+Fixpoint cf_partial_faces (pe pa : bool) (fs : list (list Z)) (iC : Z) (fcs : list (list Z)) : list Z * list Z * bool :=
+  match fcs with
+  | [] => ([], [], true)
+  | f :: t =>
+      match (if pe then face_index fs (keyify f) else Some 0) with
+      | None => ([], [], false)
+      | Some i => let '(e, a, ok) := cf_partial_faces pe pa fs iC t in
+                  ((if pe then [i] else []) ++ e, (if pa then [iC] else []) ++ a, ok)
+      end
+  end.
+Fixpoint cf_partial (pe pa : bool) (fs : list (list Z)) (cs : list (Z * list Z)) : list Z * list Z :=
+  match cs with
+  | [] => ([], [])
+  | (iC, C) :: t =>
+      match gcf_cell_faces C with
+      | None => ([], [])
+      | Some fcs => let '(e, a, ok) := cf_partial_faces pe pa fs iC fcs in
+                    if ok then let ea := cf_partial pe pa fs t in (e ++ fst ea, a ++ snd ea) else (e, a)
+      end
+  end.
+
+Definition generate_cell_faces_left (r : raw) : raw :=
+  let nce := zlen (cf_elem r) in let nca := zlen (cf_adj r) in
+  if cf_regen nce nca && negb cf_atomic then
+    let ea := cf_partial (cf_put_elem nce nca) (cf_put_adj nce nca) (faces r) (enumerate (cells r)) in
+    mkRaw (vertices r) (edges r) (eattrs r) (faces r) (fc_elem r) (fc_adj r)
+          (cells r) (cc_elem r) (cc_adj r) (cf_elem r ++ fst ea) (cf_adj r ++ snd ea)
+  else r.
+
+Fixpoint run_steps_left (c : cfg) (l : list (gate * step)) (r : raw) : raw :=
+  match l with
+  | [] => r
+  | (g, s) :: t =>
+      if gate_open c g then
+        match run_step s r with
+        | Ok r' => run_steps_left c t r'
+        | Err _ => match s with SCellFaces => generate_cell_faces_left r | _ => r end
+        end
+      else run_steps_left c t r
+  end.
+Definition prepare_left (c : cfg) (r : raw) : raw := run_steps_left c prepare_steps r.
